@@ -142,7 +142,14 @@ func (propC03) Expand(t *testing.T, p *Plan) []*Plan {
 			}
 			seen[fi] = true
 			start, end := l.FrameStart(fi), l.Ends[fi]
-			for _, off := range []int{start, start + 1, start + 7, start + 8, start + 9, (start + 8 + end) / 2, end - 1} {
+			offs := []int{start, start + 1, start + 7, start + 8, start + 9, (start + 8 + end) / 2, end - 1}
+			// inside a large body: the boundaries of common chunk sizes
+			for _, chunk := range []int{512, 4096, 8192, 16384, 32768, 65536} {
+				for k := 1; k <= 3; k++ {
+					offs = append(offs, start+8+k*chunk, start+k*chunk)
+				}
+			}
+			for _, off := range offs {
 				if off < start || off >= end {
 					continue
 				}
